@@ -33,10 +33,14 @@ CLAIM = dict(
     "4x6x3 <-> 24x3; apply_rows_commute for swatches[-1] / swatches[:-1]) and the ColorCorrection.correct_array pipeline is the "
     "composition 'colour balance after white balance' on every pixel (pipeline_is_composition, pipeline_explicit x.D.A + b, "
     "pipeline_colour_rows_exact). Tied exactly to the code by stubbing the stage fits with dyadic matrices, both on "
-    "AdaptiveBalance and through the real ColorCorrection.correct_array on a synthetic dyadic checker. "
+    "AdaptiveBalance, through the real ColorCorrection.correct_array on a synthetic dyadic checker, and through the one-shot entry "
+    "points balance(img, src, dst) / white_balance / color_balance / affine_balance (call_is_apply_after_fit; pipeline_order_matters: "
+    "the stage order cannot be swapped). "
     "Only observed (not proved): that scipy's Powell search reaches the minimiser within tolerance (1e-4 on swatches in [0,1]) "
     "and never returns a larger objective than it started from - sampled over random well-conditioned swatch sets, ground "
-    "truths near the identity, all balance classes and all ordered pairs / triples of staged modes.",
+    "truths near the identity, all balance classes and all ordered pairs / triples of staged modes, from the identity and from "
+    "non-identity start balances (warm starts), through the two-step path and the one-shot entry points; and that ColorCorrection on "
+    "a non-affine camera response equals WhiteBalance (grey row) then Affine/ColorBalance (white-balanced colour rows).",
     note="optimiser contract is sampled, not proved; a tolerance miss is re-fitted once (find_balance restarts from the current "
     "balance) before it counts.",
     technique="Lean 4 proof of the composition algebra + exact differential correspondence with stubbed stage fits + property "
@@ -219,40 +223,86 @@ def objective(bal, src, dst):
     return float(np.sum((bal.apply_balance(src) - dst) ** 2))
 
 
+SHORTCUT = {"diagonal": "white_balance", "linear": "color_balance", "affine": "affine_balance"}
+
+
+def _shortcut(d, name):
+    if hasattr(d, name):
+        return getattr(d, name)
+    import darsia.corrections.color.colorbalance as cbm
+
+    return getattr(cbm, name)
+
+
 def check_fit_case(d, case, cov=None):
-    """single class: exact truth recovered, objective not increased"""
+    """single class: exact truth recovered and objective not increased - from the identity or from any start balance
+    (`start`: warm start, e.g. a balance fitted earlier against other destinations), through the two-step path
+    (find_balance + apply_balance) and through the one-shot entry points (`balance(img, src, dst)`, shortcut functions)."""
     mode = case["mode"]
+    entry = case.get("entry", "two-step")
     src = np.array(case["src"], float)
     A, b = np.array(case["A"], float), np.array(case["b"], float)
     dst = src @ A + b
     bad = []
-    bal = call(getattr(d, CLS[mode]))
+    cname = "AdaptiveBalance" if entry == "adaptive-call" else CLS[mode]
+    if entry == "shortcut":
+        out = call(_shortcut(d, SHORTCUT[mode]), src.copy(), src.copy(), dst.copy())
+        if isinstance(out, Raised):
+            return [(f"C12:{SHORTCUT[mode]}():raises", f"{out}")]
+        err = float(np.abs(np.asarray(out) - dst).max())
+        if err > TOL_FIT:
+            bad.append((f"C12:{SHORTCUT[mode]}():exact-{mode}-map-not-reproduced",
+                        f"{SHORTCUT[mode]}(src, src, dst) differs from dst by {err:.3g} on an exact {mode} ground truth"))
+        return bad
+    bal = call(getattr(d, cname))
     if isinstance(bal, Raised):
-        return [(f"C12:{CLS[mode]}():raises", f"{bal}")]
+        return [(f"C12:{cname}():raises", f"{bal}")]
+    start = case.get("start")
+    tag = ""
+    if start is not None:
+        bal.balance_scaling = np.array(start["A"], float)
+        if mode == "affine":
+            bal.balance_translation = np.array(start["b"], float)
+        tag = "(warm-start)"
     before = call(objective, bal, src, dst)
+    if entry in ("call", "adaptive-call"):
+        out = call(bal, src.copy(), src.copy(), dst.copy())
+        if isinstance(out, Raised) or isinstance(before, Raised):
+            return [(f"C12:{cname}.__call__:raises", f"{out}")]
+        app = call(bal.apply_balance, src)
+        if isinstance(app, Raised) or np.asarray(out).shape != np.asarray(app).shape or float(np.abs(np.asarray(out) - app).max()) > 1e-12:
+            bad.append((f"C12:{cname}.__call__≠apply_balance",
+                        f"balance(img, src, dst) differs from balance.apply_balance(img) after the same fit by "
+                        f"{float(np.abs(np.asarray(out) - app).max()) if not isinstance(app, Raised) else app}"))
+        err = float(np.abs(np.asarray(out) - dst).max())
+        if err > TOL_FIT:
+            bad.append((f"C12:{cname}.__call__:exact-{mode}-map-not-reproduced",
+                        f"balance(src, src, dst) differs from dst by {err:.3g} on an exact {mode} ground truth"))
+        return bad
     r = call(bal.find_balance, src, dst)
     if isinstance(r, Raised) or isinstance(before, Raised):
-        return [(f"C12:{CLS[mode]}.find_balance:raises", f"{r}")]
+        return [(f"C12:{cname}.find_balance:raises", f"{r}")]
     after = objective(bal, src, dst)
     err = float(np.abs(bal.apply_balance(src) - dst).max())
     refit = False
+    if after > before * (1 + 1e-9) + 1e-15:
+        bad.append((f"C12:{cname}.find_balance:objective-increased{tag}", f"objective before {before}, after {after}"))
     if err > TOL_FIT:
         call(bal.find_balance, src, dst)
         refit = True
         after2 = objective(bal, src, dst)
         err = float(np.abs(bal.apply_balance(src) - dst).max())
         if after2 > after * (1 + 1e-9) + 1e-15:
-            bad.append((f"C12:{CLS[mode]}.find_balance:objective-increased(restart)", f"objective {after} -> {after2} on re-fit"))
+            bad.append((f"C12:{cname}.find_balance:objective-increased(restart)", f"objective {after} -> {after2} on re-fit"))
         after = after2
     if cov is not None:
         cov.setdefault("fit_error_max", {}).setdefault(mode, 0.0)
         cov["fit_error_max"][mode] = max(cov["fit_error_max"][mode], err)
         cov["refits"] = cov.get("refits", 0) + int(refit)
     if err > TOL_FIT:
-        bad.append((f"C12:{CLS[mode]}.find_balance:exact-{mode}-map-not-recovered",
-                    f"max |apply_balance(src) − dst| = {err:.3g} > {TOL_FIT} after fit (+1 re-fit) on an exact {mode} ground truth"))
-    if after > before * (1 + 1e-9) + 1e-15:
-        bad.append((f"C12:{CLS[mode]}.find_balance:objective-increased", f"objective before {before}, after {after}"))
+        bad.append((f"C12:{cname}.find_balance:exact-{mode}-map-not-recovered{tag}",
+                    f"max |apply_balance(src) − dst| = {err:.3g} > {TOL_FIT} after fit (+1 re-fit) on an exact {mode} ground truth"
+                    + (" starting from a non-identity balance" if start is not None else "")))
     return bad
 
 
@@ -419,6 +469,40 @@ def corr_pipeline(ctx, d):
     return ctx.correspond("ColorCorrection.correct_array pipeline (stubbed stage fits, exact)", lines, impl)
 
 
+def corr_entry_points(ctx, d):
+    """one-shot entry points with stubbed fits: balance(img, src, dst) and the shortcut functions must return the model's
+    `apply` of the fitted balance on every pixel (exact, dyadic)."""
+    lines, impl = [], []
+    for i in range(ctx.pick(12, 96)):
+        mode = MODES[i % 3]
+        entry = ("call", "shortcut", "adaptive-call")[(i // 3) % 3]
+        m = "affine" if entry == "adaptive-call" else mode  # AdaptiveBalance.__call__ fits in its default (affine) mode
+        A, b = rand_stage(ctx.rng, m)
+        shape = ctx.rng.choice([(4, 3), (2, 3, 3), (4, 6, 3)])
+        n = int(np.prod(shape[:-1]))
+        pts = [[Fr(ctx.rng.randint(0, 8), 8) for _ in range(3)] for _ in range(n)]
+        lines.append(f"stages new 1 {stage_tokens(m, A, b)} {n} " + " ".join(fmt(x) for p in pts for x in p))
+
+        def run():
+            img = np.array([[float(x) for x in p] for p in pts]).reshape(shape)
+            queue, log = [(m, A, b)], []
+            with Stub(d, queue, log):
+                if entry == "shortcut":
+                    out = _shortcut(d, SHORTCUT[m])(img.copy(), img.copy(), np.zeros(shape))
+                else:
+                    bal = getattr(d, "AdaptiveBalance" if entry == "adaptive-call" else CLS[m])()
+                    out = bal(img.copy(), img.copy(), np.zeros(shape))
+            if queue:
+                raise ValueError("no stage fit was run")
+            ab = " ".join(fmt(x) for r in A for x in r) + " | " + " ".join(fmt(x) for x in (b if m == "affine" else [0, 0, 0]))
+            o = " ".join(fmt(x) for x in np.asarray(out).reshape(-1, 3).ravel())
+            return f"{ab} | {o} | {o}"
+
+        r = call(run)
+        impl.append(repr(r) if isinstance(r, Raised) else r)
+    return ctx.correspond("one-shot entry points balance(img, src, dst) / shortcuts (stubbed fits, exact)", lines, impl)
+
+
 def check_layout_case(d, case):
     """reshape commutes with apply_balance: flat Nx3 vs 4x6x3 (and image-like HxWx3)"""
     mode = case["mode"]
@@ -474,6 +558,55 @@ def check_pipeline_case(d, case):
     return []
 
 
+ROWS = [12, 93, 175, 255]
+COLS = [12, 95, 177, 260, 344, 427]
+
+
+def check_order_case(d, case, cov=None):
+    """ColorCorrection (balancing='darsia', whitebalancing on) on a photo whose checker colours are NOT an affine image of
+    the reference (channel-wise gamma, cast on the grey row): the corrected image must equal the stand-alone stage balances
+    applied one after the other - WhiteBalance fitted on the grey row, then Affine/ColorBalance fitted on the white-balanced
+    colour rows. (Both sides run the same Powell fits on the same swatches; tolerance 5e-3.)"""
+    from darsia.corrections.color.colorcorrection import ColorCheckerAfter2014, CustomColorChecker
+
+    ref = ColorCheckerAfter2014().swatches_rgb.astype(float)
+    M, t, gamma, cast = (np.array(case[k], float) for k in ("M", "t", "gamma", "cast"))
+    col = np.clip(ref @ M + t, 0.01, 1.0) ** gamma
+    col[-1] = np.clip(col[-1] * cast, 0.0, 1.0)
+    chk = np.full((326, 500, 3), 0.05)
+    for i, r in enumerate(ROWS):
+        for j, c in enumerate(COLS):
+            chk[r - 6:r + 56, c - 6:c + 56] = col[i, j]
+    photo = np.full((380, 580, 3), 0.3)
+    photo[30:356, 40:540] = chk
+    mode = case["mode"]
+
+    def run():
+        cc = d.ColorCorrection(base=None, config={"roi": d.make_voxel([[30, 40], [356, 40], [356, 540], [30, 540]]),
+                                                  "balancing": "darsia", "whitebalancing": True, "colorbalancing": mode})
+        out = cc.correct_array(photo.copy())
+        sw = CustomColorChecker(image=photo[30:356, 40:540]).swatches_rgb
+        rf = cc.colorchecker.swatches_rgb
+        wb = d.WhiteBalance()
+        wb.find_balance(sw[-1], rf[-1])
+        cb = d.AffineBalance() if mode == "affine" else d.ColorBalance()
+        cb.find_balance(wb.apply_balance(sw[:-1]), rf[:-1])
+        return out, cb.apply_balance(wb.apply_balance(photo))
+
+    r = call(run)
+    if isinstance(r, Raised):
+        return [("C12:ColorCorrection.correct_array:raises(order)", f"{r}")]
+    out, exp = r
+    err = float(np.abs(out - exp).max())
+    if cov is not None:
+        cov["order_dev_max"] = max(cov.get("order_dev_max", 0.0), err)
+    if err > 5e-3:
+        return [(f"C12:ColorCorrection:≠white-balance-then-colour-balance({mode})",
+                 f"non-affine camera response: ColorCorrection output differs by {err:.3g} from WhiteBalance (grey row) followed by "
+                 f"{'AffineBalance' if mode == 'affine' else 'ColorBalance'} (white-balanced colour rows) applied one after the other")]
+    return []
+
+
 def report(ctx, bad, case):
     for sig, what in bad:
         ctx.fail(sig, what, {"case": case, "observed": what})
@@ -517,6 +650,33 @@ def oracle(ctx, d):
             case = dict(own_targets=True, modes=modes, src=src.tolist(), truths=truths)
             ctx.count(("own-targets", tuple(modes), rep))
             report(ctx, check_own_targets_case(d, case, ctx.cov), case)
+    # warm starts (a balance that already holds a non-identity map is re-fitted against other exact destinations) and the
+    # one-shot entry points (balance(img, src, dst), shortcut functions, AdaptiveBalance.__call__)
+    for i in range(ctx.pick(12, 60)):
+        mode = MODES[i % 3]
+        src = rand_swatches(rng, flat=bool(i % 2))
+        A, b = rand_truth(rng, mode)
+        if mode == "affine":
+            b = np.array([sgn * rng.uniform(0.03, 0.08) for sgn in (1, -1, 1)])
+        kind = ("warm", "call", "shortcut", "adaptive-call")[(i // 3) % 4]
+        case = dict(mode=mode, src=src.tolist(), A=A.tolist(), b=b.tolist())
+        if kind == "warm":
+            As, bs = rand_truth(rng, mode, amp=0.25)
+            case["start"] = dict(A=As.tolist(), b=bs.tolist())
+        elif kind == "adaptive-call":
+            case["entry"] = "adaptive-call"
+        else:
+            case["entry"] = kind
+        ctx.count(("fit-entry", kind, mode, i))
+        report(ctx, check_fit_case(d, case, ctx.cov), case)
+    # stage order inside ColorCorrection on a non-affine camera response
+    for i in range(ctx.pick(2, 6)):
+        case = dict(order=True, mode=("affine", "linear")[i % 2],
+                    M=[[(0.8 if a == b2 else 0.0) + rng.uniform(-0.12, 0.12) for b2 in range(3)] for a in range(3)],
+                    t=[rng.uniform(0.01, 0.06) for _ in range(3)], gamma=[rng.uniform(0.75, 1.4) for _ in range(3)],
+                    cast=[1.25, 0.9, 0.7] if i % 2 == 0 else [rng.uniform(0.7, 1.3) for _ in range(3)])
+        ctx.count(("order", case["mode"], i))
+        report(ctx, check_order_case(d, case, ctx.cov), case)
     # array layouts
     for i in range(ctx.pick(12, 120)):
         mode = MODES[i % 3]
@@ -558,6 +718,8 @@ def _dispatch(d, case):
         return check_layout_case(d, case)
     if case.get("pipeline"):
         return check_pipeline_case(d, case)
+    if case.get("order"):
+        return check_order_case(d, case)
     return check_staged_case(d, case) if "modes" in case else check_fit_case(d, case)
 
 
@@ -590,6 +752,7 @@ def run(ctx):
     corr_composition(ctx, d)
     corr_apply_and_objective(ctx, d)
     corr_pipeline(ctx, d)
+    corr_entry_points(ctx, d)
     oracle(ctx, d)
     ctx.cov["explanation"] = CLAIM["text"]
     ctx.cov["rule"] = ("composition: every mode sequence of length 1-3 plus random sequences of length 2-4 with random dyadic stage "
